@@ -35,7 +35,7 @@ type bdBeacon struct {
 
 // bdPool: identities Q0 = X#1 (1 AS entry, received on 11), Q1 = X#3>M#5,6 (2 entries, received on 12, long
 // lifetime), Q2 = Y#1>M#7,6 (2 entries, Y = X in another ISD, received on 12 as well). Versions v0/v1/v2 = info timestamps
-// T0, T0+1000 s, T0+2000 s; Q0v2 arrives on interface 13 (the stored ingress must follow the stored version).
+// T0, T0+1000 s, T0+2000 s (Q1: T0, T0+1 s, T0+2 s); Q0v2 arrives on interface 13 (the stored ingress must follow the stored version).
 func bdPool(thorough bool) []*bdBeacon {
 	type idDef struct {
 		n    string
@@ -50,7 +50,12 @@ func bdPool(thorough bool) []*bdBeacon {
 	var pool []*bdBeacon
 	add := func(i, v int) {
 		d := ids[i]
-		info := c27T0.Add(time.Duration(v) * 1000 * time.Second)
+		// versions of Q0 and Q2 are 1000 s apart, those of Q1 only one second (the resolution of the info timestamp)
+		step := 1000 * time.Second
+		if i == 1 {
+			step = time.Second
+		}
+		info := c27T0.Add(time.Duration(v) * step)
 		hops := append([]hopSpec{}, d.hops...)
 		var ttl time.Duration
 		for k := range hops {
